@@ -26,10 +26,10 @@ SPEC = dict(
     jobs=[
         job('chunk-q', 'h_sha', 'chunk-q', cases={Q: -1, T: 0}, procs=16, rec=True),
         job('chunk-t', 'h_sha', 'chunk-t', cases={Q: 0, T: -1}, procs=16, rec=True),
-        job('rand', 'h_sha', 'rand', cases={Q: 4000, T: 80000}, procs=16, rec=True),
+        job('rand', 'h_sha', 'rand', cases={Q: 8000, T: 80000}, procs=16, rec=True),
         job('hmac', 'h_sha', 'hmac', cases=-1, procs=16, rec=True),
-        job('hmac-rand', 'h_sha', 'hmac-rand', cases={Q: 4000, T: 200000}, procs=16, rec=True),
-        job('alias', 'h_sha', 'alias', cases={Q: 3618, T: 72360}, procs=16, rec=True),
+        job('hmac-rand', 'h_sha', 'hmac-rand', cases={Q: 8000, T: 200000}, procs=16, rec=True),
+        job('alias', 'h_sha', 'alias', cases={Q: 7236, T: 72360}, procs=16, rec=True),
         job('big', 'h_sha', 'big', cases={Q: 5, T: 7}, procs={Q: 5, T: 7}, rec=True, timeout=1200),
         job('vectors', 'h_sha', 'vectors', cases=-1, procs=1, rec=True),
     ],
